@@ -171,10 +171,17 @@ package service
 
 //@ func (*Config).Manager
 //@   requires !isnil(sc)
+//@   loop 0 invariant forall j int :: 0 <= j && j <= rangeindex ==> has(clientIndexByName, sc.Clients[j].Name) && clientIndexByName[sc.Clients[j].Name] == j
+//@   callsite ClientConfig).Initialize: forall j int :: 0 <= j && j < i ==> sc.Clients[j].Name != sc.Clients[i].Name
+//@   loop 1 invariant forall j int :: 0 <= j && j < len(sc.Clients) ==> has(clientIndexByName, sc.Clients[j].Name) && clientIndexByName[sc.Clients[j].Name] == j
+//@   loop 1 invariant forall j int :: 0 <= j && j <= rangeindex ==> has(clientGroupIndexByName, sc.ClientGroups[j].Name) && clientGroupIndexByName[sc.ClientGroups[j].Name] == j && !has(clientIndexByName, sc.ClientGroups[j].Name)
+//@   callsite AddClientGroup: forall j int :: 0 <= j && j < i ==> sc.ClientGroups[j].Name != sc.ClientGroups[i].Name
+//@   callsite AddClientGroup: forall j int :: 0 <= j && j < len(sc.Clients) ==> sc.Clients[j].Name != sc.ClientGroups[i].Name
+//@   loop 2 invariant forall j int :: 0 <= j && j <= rangeindex ==> has(resolverMap, sc.DNS[j].Name)
+//@   callsite NewSimpleResolver: forall j int :: 0 <= j && j < i ==> sc.DNS[j].Name != sc.DNS[i].Name
 //@   loop 3 invariant forall j int :: 0 <= j && j <= rangeindex ==> has(serverIndexByName, sc.Servers[j].Name) && serverIndexByName[sc.Servers[j].Name] == j
 //@   callsite Config).Router: forall j int :: 0 <= j && j < len(sc.Servers) ==> has(arg6, sc.Servers[j].Name) && arg6[sc.Servers[j].Name] == j
-//@ func (*ClientGroupConfig).AddClientGroup
-//@   noinline
+//@   callsite Config).Router: forall j int :: 0 <= j && j < len(sc.DNS) ==> has(arg3, sc.DNS[j].Name)
 //@ func (*ServerConfig).Initialize
 //@   noinline
 //@ func (*ServerConfig).TCPRelay
